@@ -262,13 +262,20 @@ unsafe impl Kernel<u8, i8, i32> for GenericKernel {
         image: &Im2Col<i8>,
         rows: Range<usize>,
         cols: Range<usize>,
-        _zero_point: Option<i8>,
+        zero_point: Option<i8>,
     ) {
         const NR_REGS: usize = GenericKernel::NR / 4;
 
         // Safety: Scalar "SIMD" types are always supported
         let out = cast_uninit_mut_slice(out).unwrap();
-        image.pack_block::<_, NR_REGS>(self.isa, out, Self::NR, rows, cols);
+        image.pack_block_with_pad::<_, NR_REGS>(
+            self.isa,
+            out,
+            Self::NR,
+            rows,
+            cols,
+            zero_point.unwrap_or_default(),
+        );
     }
 
     unsafe fn kernel(
